@@ -80,3 +80,70 @@ Definition run_sched (cf : cfg) (sched : list (nat * bytes)) (srv : list conn) :
 
 Definition pieces_for (j : nat) (sched : list (nat * bytes)) : list bytes :=
   map snd (filter (fun ip => Nat.eqb (fst ip) j) sched).
+
+(* ------------------------------------------------------------------ *)
+(* keep-alive: a server connection over ALL its requests               *)
+(* ------------------------------------------------------------------ *)
+(* Valet: when a request is complete it is answered and, if .persisted, serviceReps calls
+   makeParser() so that the bytes behind it are parsed as the next request; otherwise the
+   connection is closed after the response.  State = (parser state, requests answered). *)
+Definition is_done (s : pst) : bool := match p_stage s with SDone => true | _ => false end.
+
+Definition ka_step (cf : cfg) (st : pst * nat) (b : bytes) : sres (pst * nat) :=
+  match http_step cf false (fst st) b with
+  | Adv s' r => if is_done s' && req_persisted s'
+                then Adv (init_pst false false, S (snd st)) r      (* answered, parser re-made *)
+                else Adv (s', snd st) r
+  | Wait => Wait
+  | Halt => Halt
+  end.
+
+Definition ka_rank (s : pst) : nat :=
+  match p_stage s with SDone | SFail _ => 0 | SStart _ => 1 | _ => 2 end%nat.
+Definition ka_mu (st : pst * nat) (b : bytes) : nat := (3 * length b + ka_rank (fst st))%nat.
+
+Definition ka_feed (cf : cfg) := feed (pst * nat) (ka_step cf) ka_mu.
+Definition ka_feed_all (cf : cfg) := feed_all (pst * nat) (ka_step cf) ka_mu.
+Definition ka_init : (pst * nat) * bytes := ((init_pst false false, O), []).
+
+(* what the peer sees: number of responses, and whether the server closed the connection *)
+Definition ka_responses (k : (pst * nat) * bytes) : nat :=
+  (snd (fst k) + if is_done (fst (fst k)) then 1 else 0)%nat.
+Definition ka_closed (k : (pst * nat) * bytes) : bool := terminal (p_stage (fst (fst k))).
+Definition ka_outcome (k : (pst * nat) * bytes) : outcome := outcome_of valet_catch (fst (fst k), snd k).
+
+(* ------------------------------------------------------------------ *)
+(* generic multi-connection server: per-connection state C, events E    *)
+(* ------------------------------------------------------------------ *)
+Section Server.
+  Variables C E : Type.
+  Variable f : C -> E -> C.
+  Fixpoint gdeliver (i : nat) (e : E) (srv : list C) : list C :=
+    match srv, i with
+    | [], _ => []
+    | c :: t, O => f c e :: t
+    | c :: t, S i' => c :: gdeliver i' e t
+    end.
+  Definition grun (sched : list (nat * E)) (srv : list C) : list C :=
+    fold_left (fun s ie => gdeliver (fst ie) (snd ie) s) sched srv.
+  Definition events_for (j : nat) (sched : list (nat * E)) : list E :=
+    map snd (filter (fun ie => Nat.eqb (fst ie) j) sched).
+End Server.
+
+(* keep-alive connections: event = received piece *)
+Definition ka_conn := ((pst * nat) * bytes)%type.
+Definition ka_deliver (cf : cfg) (c : ka_conn) (piece : bytes) : ka_conn := ka_feed cf c piece.
+
+(* https: a connection first has to complete the TLS handshake (ServerTls.serviceCxes); the
+   handshake attempt's result comes from the ssl library: an oracle *)
+Inductive hs_result := HsWant | HsDone | HsFail.
+Inductive tls_event := TlsHandshake (r : hs_result) | TlsBytes (piece : bytes).
+Inductive tls_phase := Handshaking | Established | Dropped.
+Definition tls_conn := (tls_phase * ka_conn)%type.
+Definition tls_deliver (cf : cfg) (c : tls_conn) (e : tls_event) : tls_conn :=
+  match fst c, e with
+  | Handshaking, TlsHandshake HsDone => (Established, snd c)
+  | Handshaking, TlsHandshake HsFail => (Dropped, snd c)       (* removed from .cxes, socket shut *)
+  | Established, TlsBytes p => (Established, ka_deliver cf (snd c) p)
+  | _, _ => c
+  end.
